@@ -247,6 +247,84 @@ func (c *Ctx) lastWordSweep(li, n int) {
 	c.rep.sample(fmt.Sprintf("last-word sweep %s %d words: %d of 2048 accepted (expected %d)", langNames[li], len(toks), accepted, want))
 }
 
+// affixSiblings: list words one of which is a proper suffix or prefix of another ("affair"/"air",
+// "espresso"/"esso", "밑바닥"/"바닥").  A validator that compares words by a tail or head match, or that
+// re-encodes and compares text instead of bits, over-accepts exactly when such a sibling stands where the
+// longer (or shorter) word belongs — most dangerously in the last position when both lie in the same
+// checksum block, where everything else about the sentence stays consistent.  For every such pair (all
+// same-block pairs, a budget of the others) a VALID sentence ending in one word is built (rejection
+// sampling on the checksum) and validated with the other word in its place, at the end and in the middle.
+var affixPairs = map[int64][][2]int{}
+
+func (c *Ctx) affixSiblings(li, n int) {
+	l := int64(langVals[li])
+	words := c.canonWords(l)
+	pairs, ok := affixPairs[l]
+	if !ok {
+		idx := map[string]int{}
+		for i, w := range words {
+			idx[w] = i
+		}
+		for i, w := range words {
+			rs := []rune(w)
+			for k := 1; k < len(rs); k++ {
+				if j, ok := idx[string(rs[k:])]; ok {
+					pairs = append(pairs, [2]int{i, j})
+				}
+				if j, ok := idx[string(rs[:k])]; ok {
+					pairs = append(pairs, [2]int{i, j})
+				}
+			}
+		}
+		affixPairs[l] = pairs
+	}
+	if len(pairs) == 0 {
+		return
+	}
+	cs := n / 4
+	var same, other [][2]int
+	for _, p := range pairs {
+		if p[0]>>cs == p[1]>>cs {
+			same = append(same, p)
+		} else {
+			other = append(other, p)
+		}
+	}
+	c.rng.Shuffle(len(other), func(i, j int) { other[i], other[j] = other[j], other[i] })
+	budget := 4 * c.scale
+	if !c.quick {
+		budget = 120
+	}
+	if len(other) > budget {
+		other = other[:budget]
+	}
+	sep := sepOf(li)
+	for _, p := range append(same, other...) {
+		for dir := 0; dir < 2; dir++ {
+			have, put := p[dir], p[1-dir]
+			e := c.entropyForLast(n, have)
+			if e == nil {
+				continue
+			}
+			toks := strings.Split(c.specSentence(l, e), sep)
+			if len(toks) < 12 || toks[len(toks)-1] != words[have] {
+				continue
+			}
+			toks[len(toks)-1] = words[put]
+			c.chk("affix-sibling:last-word", l, strings.Join(toks, " "))
+			// and in the middle of a valid sentence
+			e2 := c.randBytes(n)
+			pos := 1 + c.rng.Intn(len(toks)-2)
+			setGroup(e2, pos, have)
+			t2 := strings.Split(c.specSentence(l, e2), sep)
+			if len(t2) == len(toks) && t2[pos] == words[have] {
+				t2[pos] = words[put]
+				c.chk("affix-sibling:middle-word", l, strings.Join(t2, " "))
+			}
+		}
+	}
+}
+
 func (c *Ctx) damageClasses(li, n int) {
 	l := int64(langVals[li])
 	words := c.canonWords(l)
@@ -408,6 +486,7 @@ func propC03(c *Ctx) {
 	}
 	for li := range langVals {
 		for _, n := range entSizes {
+			c.affixSiblings(li, n)
 			if c.quick && (li+n/4)%5 != int(r.Seed%5) {
 				continue
 			}
@@ -531,6 +610,34 @@ func propC15(c *Ctx) {
 				impl, ok := c.chk("checksum-only", l, strings.Join(t, " "))
 				if !ok && impl != "err checksum" {
 					r.violate(Violation{Kind: "property", Class: "checksum-only", Op: fmt.Sprintf("chk %d %s", l, hx([]byte(strings.Join(t, " ")))), Impl: impl, Detail: "want ErrChecksumIncorrect"})
+				}
+			}
+			// the same defects with compatibility spaces as separators (every code point whose NFKD form is
+			// U+0020, one at a time; one separator replaced, or all of them): the error must be the one the
+			// NFKD-normalised sentence gets — a validator that splits before it normalises counts differently
+			buildPreimages()
+			for si, sp := range nfkdSpaces {
+				if c.quick && (si+li+n/4)%7 != int(r.Seed%7) {
+					continue
+				}
+				with := func(t []string, all bool) string {
+					if all {
+						return strings.Join(t, sp)
+					}
+					k := 1 + c.rng.Intn(len(t)-1)
+					return strings.Join(t[:k], " ") + sp + strings.Join(t[k:], " ")
+				}
+				for _, all := range []bool{false, true} {
+					extra := append(append([]string(nil), toks...), words[c.rng.Intn(2048)])
+					c.chk("separator-variant:count-only", l, with(extra, all))
+					c.chk("separator-variant:count-only", l, with(toks[:len(toks)-1], all))
+					u := append([]string(nil), toks...)
+					u[c.rng.Intn(len(u))] = "qqzz"
+					c.chk("separator-variant:unknown-only", l, with(u, all))
+					w := append([]string(nil), toks...)
+					w[0], w[len(w)-1] = w[len(w)-1], w[0]
+					c.chk("separator-variant:checksum-only", l, with(w, all))
+					c.chk("separator-variant:valid", l, with(toks, all))
 				}
 			}
 			impl, _ := c.chk("valid", l, strings.Join(toks, " "))
